@@ -188,6 +188,9 @@ type Config struct {
 
 func P[T any](v T) *T { return &v }
 
+// File is one input file of a run.
+type File struct{ Name, Content string }
+
 func (c *Config) Service(name string) *Service {
 	for i := range c.Services {
 		if c.Services[i].Name == name {
